@@ -252,3 +252,26 @@ Theorem regexp_grammar_fuel_irrelevant :
   /\ (forall f ts, (List.length ts < f)%nat -> parts f ts = parts (S (List.length ts)) ts).
 Proof. exact grammar_fuel_irrelevant. Qed.
 Print Assumptions regexp_grammar_fuel_irrelevant.
+
+(* ---- line_format on the ClickHouse planner (builder b4-lf; model/LogqlTemplate.v = the part of text/template the planner
+   reaches, tied byte for byte; format() = a reading of the ClickHouse documentation: {{ }} escapes, {n} = argument n).
+   The LINE such a query returns: the column expression LineFormatPlanner prints for a parsed template evaluates, over a row with
+   label map lbls (labels['x'] = '' for an absent key), to the text nodes and the label values of the fields visitNodes reaches, in
+   order - for EVERY template of the transcribed fragment ... *)
+From Qryn Require model.LogqlTemplate proofs.LogqlTemplateProofs.
+Theorem line_format_column_value : forall ns lbls,
+  LogqlTemplate.tpl_sql_value ns lbls = Some (LogqlTemplateProofs.render_pieces (LogqlTemplate.pieces ns) lbls).
+Proof. exact LogqlTemplateProofs.tpl_sql_value_pieces. Qed.
+Print Assumptions line_format_column_value.
+(* ... which is the template's own output wherever executing it (text/template over map[string]string) succeeds with a plain
+   text: every action a single field {{.name}}. Longer chains, several operands and pipes into fields fail at execution while
+   the planner silently reads the first identifier; the dot prints Go's map syntax: outside the claim (tpl_exec = None). *)
+Theorem line_format_column_renders_the_template : forall ns lbls out,
+  LogqlTemplate.tpl_exec ns lbls = Some out -> LogqlTemplate.tpl_sql_value ns lbls = Some out.
+Proof. exact LogqlTemplateProofs.line_format_sql_value. Qed.
+Print Assumptions line_format_column_renders_the_template.
+Example line_format_column_hyp :
+  exists ns, LogqlTemplate.tpl_parse "lvl={{.level}} {msg}{{- .x -}} !" = LogqlTemplate.TOk ns /\
+             LogqlTemplate.tpl_exec ns [("level", "warn")] = Some "lvl=warn {msg}!" /\
+             LogqlTemplate.tpl_sql_value ns [("level", "warn")] = Some "lvl=warn {msg}!".
+Proof. exact LogqlTemplateProofs.line_format_sql_value_hyp. Qed.
